@@ -39,6 +39,7 @@ def main():
     ap.add_argument('--out', default=os.path.join(os.path.dirname(HERE), 'replays'))
     a = ap.parse_args()
     os.makedirs(a.out, exist_ok=True)
+    os.environ['ORACLE_PROP'] = a.prop
     t0 = time.time()
     mods = lib.load_repo(a.repo)
     SUITES, CHECKERS = registry()
